@@ -471,7 +471,7 @@ int simk_pthread_setschedparam(pthread_t th, int, const struct sched_param *) {
   int id = (int)(uintptr_t)th - 1;
   return task(id) ? 0 : ESRCH;
 }
-int simk_sched_yield(void) { yield_point(); return 0; }
+int simk_sched_yield(void) { if (cur()) cur()->yielded = true; yield_point(); return 0; }
 
 // ---------------------------------------------------------------- TLS keys
 int simk_pthread_key_create(pthread_key_t *key, void (*dtor)(void *)) {
